@@ -119,6 +119,9 @@ structure Ledger where
 
 def b2n (b : Bool) : Nat := if b then 1 else 0
 
+/-- closing a filter that is open (others are left alone) -/
+def closeF (f : FSt) : FSt := if f == .opened then .closed else f
+
 def openCount : List FSt → Nat
   | [] => 0
   | .opened :: fs => openCount fs + 1
@@ -149,7 +152,7 @@ inductive Op
   | plain (func : String)
   /-- a call that has no `archive_check_magic` at all: archive_errno,
   archive_error_string, archive_write_add_filter_none,
-  archive_write_disk_set_options, a zero-length archive_read_data -/
+  archive_write_disk_set_options, an archive_read_data of zero bytes -/
   | unchecked
   /-- archive_write_fail -/
   | fail
@@ -175,7 +178,7 @@ inductive Op
 
 /-- First call site of `func` for handles of kind `k`. -/
 def siteOf (k : Kind) (func : String) : Option Site :=
-  sites.find? fun s => s.func == func && s.kind == k
+  sites.find? fun s => s.kind == k && s.func == func
 
 /-- `(a->state & allowed_states) != 0` -/
 def allowed (st : St) (mask : Nat) : Bool := (st.bit &&& mask) != 0
@@ -211,7 +214,7 @@ for each filter; the last one is the client proxy whose close runs the client's
 close callback. -/
 def rCloseFilters (h : Handle) : Handle :=
   let lastOpen := h.filters.getLast? == some .opened
-  let h1 := { h with filters := h.filters.map fun f => if f == .opened then .closed else f }
+  let h1 := { h with filters := h.filters.map closeF }
   if lastOpen then callCloser h1 else h1
 
 /-- `__archive_read_free_filters`: close_filters, then free every filter object -/
@@ -287,7 +290,7 @@ def wOpenFilters (fs : List FSt) (good : Nat) : List FSt :=
 /-- `__archive_write_filters_close`: only filters that are OPEN are closed. -/
 def wCloseFilters (h : Handle) : Handle :=
   let lastOpen := h.filters.getLast? == some .opened
-  let h1 := { h with filters := h.filters.map fun f => if f == .opened then .closed else f }
+  let h1 := { h with filters := h.filters.map closeF }
   -- archive_write_client_close runs the client's close callback
   if lastOpen then { h1 with nClose := h1.nClose + 1 } else h1
 
@@ -451,8 +454,10 @@ def step (h : Handle) (op : Op) (o : Outcome) : Handle × Rc :=
   | .rSetReader => checked h "archive_read_set_read_callback" fun h => ({ h with hasReader := true }, .ok)
   | .rNextHeader => checked h "_archive_read_next_header2" (rNextHeaderBody o)
   | .rReadData =>
-      -- archive_read_data has no check of its own: it is refused only when it has to fetch a block
-      if o.flag then (h, .ok) else checked h "_archive_read_data_block" fun h => (h, o.rc)
+      -- archive_read_data has no check of its own: in the DATA state it may be served from the
+      -- block it buffered; in every other state the buffered block is dropped first and the call
+      -- goes through archive_read_data_block
+      if o.flag && h.st == .data then (h, .ok) else checked h "_archive_read_data_block" fun h => (h, o.rc)
   | .rReadDataBlock => checked h "_archive_read_data_block" fun h => (h, o.rc)
   | .rDataSkip => rDataSkip h o.rc
   | .rSeekData => checked h "archive_seek_data" fun h => (h, o.rc)
